@@ -438,6 +438,8 @@ PROPS["C05"] = Prop(
                _c14("exp_overflow_saturates_to_cap", "the configured exponential backoff never collapses to zero deep into a retry sequence (shared with C14)",
                     "powi result any f64 >= 1e30; initial any in [1 ms, 10 days]; max None/any", timeout=600),
                _c14("exp_total_cap_anypow", "the configured exponential backoff is total and capped for every attempt (shared with C14)", "see C14", timeout=600),
+               H("verif_kani::c05::builder_is_faithful", RETRY, "public builder -> layer -> service: attempt limit (fixed / per request), fixed back-off, predicate and budget reach the config, two builder orders",
+                 "any usize limit, back-off whole ms <= 1000 s", models=("tokio", "rand"), playback=False, timeout=600),
                _r5("plain", "no predicate, no budget, max_attempts 0..=3", tiers=("thorough",)), _r5("with_predicate", "retry predicate", tiers=("thorough",)),
                _r5("with_budget", "retry budget", tiers=("thorough",)),
                _r5("with_budget_predicate_dynamic_max", "budget + predicate + per-request max_attempts", tiers=("thorough",))],
